@@ -1,6 +1,6 @@
 """C05 driver: scales."""
 from mingus.core import scales
-from .common import call, nm, txt, integer, boolean, names, Shape
+from .common import again, AGAIN, call, nm, txt, integer, boolean, names, Shape
 
 
 def mk(c, t, n):
@@ -49,6 +49,7 @@ def run_case(c):
     elif kd == "rec":
         ns = [txt(x) for x in c["notes"]]
         R.append(call("determine", {"notes": [list(x) for x in ns]}, lambda: scales.determine(list(ns)), lambda o: [recname(x) for x in o]))
+        R.append(call("determine", {"notes": [list(x) for x in ns], "asked": AGAIN}, again(lambda: scales.determine(list(ns))), lambda o: [recname(x) for x in o]))
         # the same notes given as another kind of collection (the kind rotates over the cases): the answer is about the notes
         form = ("tuple", "set", "iterator", "dictionary keys")[(len(ns) + c.get("cid", 0)) % 4]
         give = {"tuple": tuple, "set": set, "iterator": iter, "dictionary keys": lambda x: dict.fromkeys(x).keys()}[form]
